@@ -263,3 +263,82 @@ func observeLookup(c *core.Ctx) {
 		}()
 	}
 }
+
+// unalignedIntervalWitness: a database whose storage interval (7s) passes DatabaseOption.Validate
+// but does not divide one hour. A point written at 2024-03-01T01:00:03Z goes to the 01:00 family
+// (family-aligned slot grid); the query [00:59:00, 01:00:03] — which contains the point — is planned
+// by the real calcTimeRangeAndInterval on the epoch-aligned 7s grid to [00:58:56, 00:59:59], and
+// the real Shard.GetDataFamilies of that range does not return the family. Oracle key
+// `unaligned-storage-interval-query-misses-slot` (Props.C13.Neg.unaligned_interval_not_covered).
+func unalignedIntervalWitness(c *core.Ctx) {
+	const iv = 7 * sec
+	opt := &option.DatabaseOption{Intervals: option.Intervals{{Interval: timeutil.Interval(iv), Retention: timeutil.Interval(400 * 365 * day)}}}
+	if err := opt.Validate(); err != nil {
+		c.Branch("unaligned/rejected-by-validate")
+		fmt.Println("OBSERVATION 7s interval rejected by DatabaseOption.Validate:", err)
+		return
+	}
+	dir, err := os.MkdirTemp("", "lvh-c13-*")
+	if err != nil {
+		return
+	}
+	defer os.RemoveAll(dir)
+	cfg := config.NewDefaultStorageBase()
+	cfg.TSDB.Dir = dir
+	config.SetGlobalStorageConfig(cfg)
+	engine, err := tsdb.NewEngine()
+	if err != nil {
+		c.Note("engine: " + err.Error())
+		return
+	}
+	defer engine.Close()
+	if err := engine.CreateShards("db", opt, models.ShardID(1)); err != nil {
+		c.Branch("unaligned/rejected-by-engine")
+		fmt.Println("OBSERVATION 7s interval rejected by engine.CreateShards:", err)
+		return
+	}
+	shard, ok := engine.GetShard("db", models.ShardID(1))
+	if !ok {
+		return
+	}
+	k := calcs[0]
+	t := ms(2024, 3, 1, 1, 0, 3, 0)
+	qs, qe := ms(2024, 3, 1, 0, 59, 0, 0), t
+	var fam timeutil.TimeRange
+	guarded(c, fmt.Sprintf("wrange %s %d %d", k.name, k.calc.CalcSegmentTime(t), t), false, func() string {
+		f, err := shard.GetOrCrateDataFamily(t)
+		if err != nil {
+			return "error"
+		}
+		fam = f.TimeRange()
+		return fmt.Sprintf("%d %d", fam.Start, fam.End)
+	})
+	ps, pe, st, okp := opPlan(c, 0, qs, qe, false, []int64{iv})
+	if !okp {
+		return
+	}
+	got := observeGdfNoOracle(c, shard, k, st, ps, pe, []int64{t})
+	if len(got) == 0 {
+		c.Fail("unaligned-storage-interval-query-misses-slot", fmt.Sprintf(
+			"storage interval 7s (accepted by Validate): point written at t=%d is in family [%d,%d]; query [%d,%d] contains t; planner range [%d,%d] (storage %d); Shard.GetDataFamilies(planned range) returns no family",
+			t, fam.Start, fam.End, qs, qe, ps, pe, st))
+	}
+	fmt.Printf("OBSERVATION 7s storage interval: written t=%d family [%d,%d]; query [%d,%d] planned to [%d,%d]; GetDataFamilies returned %v\n", t, fam.Start, fam.End, qs, qe, ps, pe, got)
+}
+
+// observeGdfNoOracle emits the diffed `gdf` op without the exactness oracle (the lookup itself is
+// exact for the planned range; what is judged by the caller is the composition with the planner).
+func observeGdfNoOracle(c *core.Ctx, shard tsdb.Shard, k calcT, iv, qs, qe int64, ts []int64) []int64 {
+	var starts []int64
+	guarded(c, fmt.Sprintf("gdf %s %d %d | %s", k.name, qs, qe, joinInts(ts)), false, func() string {
+		for _, f := range shard.GetDataFamilies(timeutil.Interval(iv).Type(), timeutil.TimeRange{Start: qs, End: qe}) {
+			starts = append(starts, f.TimeRange().Start)
+		}
+		sort.Slice(starts, func(a, b int) bool { return starts[a] < starts[b] })
+		if len(starts) == 0 {
+			return "none"
+		}
+		return joinInts(starts)
+	})
+	return starts
+}
